@@ -1138,20 +1138,12 @@ where
             return None;
         }
 
-        // Read until we hit a null terminator
-        let mut key = Vec::new();
-        for i in start_pos..label_data.len() {
-            if label_data[i] == 0 {
-                break;
-            }
-            key.push(label_data[i]);
+        // state_id is the position of the [len_byte][key_bytes...] entry written by insert_louds
+        let stored_len = label_data[start_pos] as usize;
+        if start_pos + 1 + stored_len > label_data.len() {
+            return None;
         }
-
-        if key.is_empty() {
-            None
-        } else {
-            Some(key)
-        }
+        Some(label_data.as_slice()[start_pos + 1..start_pos + 1 + stored_len].to_vec())
     }
 }
 
